@@ -101,6 +101,9 @@ for n, f in [('conn-read', 'slaveConnection.readBinlogEvent'), ('conn-reader', '
 runs['stream']['exclude'] = ['frame:store-field']
 for n, f in [('row-values', 'getValuesFromRow'), ('row-identifies', 'getIdentifiesFromRow')]:
     runs[n] = {'pkg': '.', 'func': f, 'opaque': 'specCellLen,specCellText,specCellOK', 'min_obligations': 80}
+for n, f in [('build-insert', 'appendInsertEventFromRows'), ('build-update', 'appendUpdateEventFromRows'), ('build-delete', 'appendDeleteEventFromRows')]:
+    runs[n] = {'pkg': '.', 'func': f, 'opaque': 'specCellLen,specCellText,specCellOK', 'min_obligations': 20}
+BUILD_RUNS = ['build-insert', 'build-update', 'build-delete']
 ROW_ASSUME = [
     "the table mapper's MysqlTable / MysqlColumn methods are pure observers (uninterpreted functions of the receiver); its column list has no nil entries",
     "CellBytes is used through its contract (verified per type in its own units); in the row units the cell specification functions are opaque (equal arguments give equal texts)",
@@ -189,11 +192,11 @@ props['C08'] = {
 }
 props['C01'] = {
     'level': 'proof',
-    'claim': "Glue obligations of end-to-end fidelity, each over the real code: the event handed to the parser is a byte-exact private copy of the packet payload (readBinlogEvent); the parser delivers exactly the buffered changes at commit points with the right labels and timestamp (parser unit, C02-C04); each row image is converted column by column — name and signedness from the mapper column of the same ordinal, type from the table map, absent / NULL / value (= the decoded cell text at the offset the length rule gives) — and consumed exactly (getValuesFromRow / getIdentifiesFromRow). The premises about cell texts, row splitting, table maps, headers and checksums are C08-C17 (own checks). 'Premises imply the end-to-end statement' is a structural induction over the event sequence written in DESIGN.md, not machine-checked.",
+    'claim': "Glue obligations of end-to-end fidelity, each over the real code: the event handed to the parser is a byte-exact private copy of the packet payload (readBinlogEvent); the parser delivers exactly the buffered changes at commit points with the right labels and timestamp (parser unit, C02-C04); each rows event becomes one change event of the right kind (insert / update / delete) with the event's timestamp, the mapper's table name and one converted image per row, in order, in the list that belongs to the kind (three builder units); each row image is converted column by column — name and signedness from the mapper column of the same ordinal, type from the table map, absent / NULL / value (= the decoded cell text at the offset the length rule gives) — and consumed exactly (getValuesFromRow / getIdentifiesFromRow). The premises about cell texts, row splitting, table maps, headers and checksums are C08-C17 (own checks). 'Premises imply the end-to-end statement' is a structural induction over the event sequence written in DESIGN.md, not machine-checked.",
     'note': "Trusted: govc, solvers; the composition lemma is on paper; channel FIFO; the master emits the documented grammar. Configurations (checksum on/off, v1/v2 rows, 4/6-byte ids, partial images, GTID on/off) are symbolic parameters of the premises, not an enumeration.",
     'technique': GEN + "; glue obligations + premises proved by the other checks",
     'assumptions': PARSER_ASSUME + ROW_ASSUME,
-    'runs': ['conn-read', 'parser', 'row-values', 'row-identifies'],
+    'runs': ['conn-read', 'parser', 'row-values', 'row-identifies'] + BUILD_RUNS,
 }
 props['C02'] = {
     'level': 'proof',
